@@ -146,7 +146,11 @@ def run(res):
                         w += ch
                     else:
                         break
+                import html as _html
                 if tk[4] == camel(w) or (w.startswith("data-") and tk[4] == camel(w[5:].lower())):
+                    known_norm[0] += 1
+                elif "&" in src[s:s + 8 * len(tk[4]) + 8] and _html.unescape(src[s:s + 8 * len(tk[4]) + 8]).startswith(tk[4]):
+                    # same finding: the AST keeps the decoded value of a static string written with character references
                     known_norm[0] += 1
                 else:
                     viol("source-map name %r is not the source spelling at its source position (source has %r)" % (tk[4], src[s:s + 12]),
